@@ -281,7 +281,7 @@ def lifetime(which: int, v: int, w: int) -> bool:
 
 
 def none_values(which: int, style: int) -> bool:
-    """a name bound to None (or 0 / '' / False) is bound: both reader spellings see the value, not "unbound""""
+    """a name bound to None (or 0 / '' / False) is bound: both reader spellings see the value, never the unbound default"""
     start()
     which, style = concretize(which, 0, 4), concretize(style, 0, 1)
     if which is OUT or style is OUT:
